@@ -54,6 +54,7 @@ type FuncContract struct {
 	Inline   bool // always inline at call sites (even if contracted)
 	Loops    map[int]*LoopContract
 	IsInit   bool
+	Decr     *Clause
 	Line     int
 	Mangled  string
 	// bound objects
@@ -212,6 +213,8 @@ func ParseContracts(fset *token.FileSet, files []*ast.File) *Contracts {
 						cl := &Clause{Kind: kw, Expr: rest, Raw: rest, Line: line, File: fname}
 						if curLoop != nil {
 							curLoop.Decr = cl
+						} else {
+							cur.Decr = cl
 						}
 					}
 				default:
@@ -474,6 +477,10 @@ func (g *GhostGen) Generate() (string, []string) {
 		for _, o := range olds {
 			known[o.name] = true
 		}
+		if fc.Decr != nil {
+			fc.Decr.Fn = fmt.Sprintf("verif__%s__decr", fc.Mangled)
+			fmt.Fprintf(&body, "func %s(%s) int { return %s }\n", fc.Decr.Fn, g.plist(params), fc.Decr.Expr)
+		}
 		for i, c := range fc.Requires {
 			c.Fn = fmt.Sprintf("verif__%s__req%d", fc.Mangled, i)
 			fmt.Fprintf(&body, "func %s(%s) bool { return %s }\n", c.Fn, g.plist(params), c.Expr)
@@ -495,6 +502,20 @@ func (g *GhostGen) Generate() (string, []string) {
 		sort.Ints(lks)
 		for _, k := range lks {
 			lc := fc.Loops[k]
+			if lc.Decr != nil && fd != nil {
+				expr, refs, err := g.resolveLocals(fd, lc.Decr.Expr, known)
+				if err != nil {
+					errs = append(errs, fmt.Sprintf("contract %s loop #%d: %v", name, k, err))
+				} else {
+					lc.Decr.Locals = refs
+					ps := append(append([]paramInfo{}, params...), olds...)
+					for _, r := range refs {
+						ps = append(ps, paramInfo{r.Ident, r.Var.Type()})
+					}
+					lc.Decr.Fn = fmt.Sprintf("verif__%s__decr%d", fc.Mangled, k)
+					fmt.Fprintf(&body, "func %s(%s) int { return %s }\n", lc.Decr.Fn, g.plist(ps), expr)
+				}
+			}
 			for i, c := range lc.Invs {
 				if fd == nil {
 					errs = append(errs, fmt.Sprintf("contract %s loop %d: no declaration", name, k))
